@@ -185,8 +185,10 @@ func (d *Descriptor) isValidJSONMapEntry() bool {
 	if len(d.Elements) != 2 {
 		return false
 	}
+	// A key that can be absent (a *string or null.String key) can't be a JSON
+	// object member name: such maps are output as a list of key/value pairs
 	key := &d.Elements[0]
-	return key.Type == FieldTypeString
+	return key.Type == FieldTypeString && !key.ExplicitPresence
 }
 
 func (d *Descriptor) readAsSlice(out Outputter, data []byte) (n int, err error) {
